@@ -309,23 +309,38 @@ let body lines =
        else begin
          let s = ref w0 in
          let fs = ref (f0 (fun _ -> [])) in
+         (* "ab t n rearm": the callback of n re-registers n once, from inside run() *)
+         let rearm = Array.make nn false in
          (try
             List.iter (fun l ->
                 let c = match words l with
                   | ["on"; t] -> Some (int_of_string t, COnline)
                   | ["off"; t] -> Some (int_of_string t, COffline)
                   | ["qs"; t] -> Some (int_of_string t, CQsCall)
-                  | ["ab"; t; n] -> if int_of_string n < 0 || int_of_string n >= nn then None
+                  | "ab" :: t :: n :: _ -> if int_of_string n < 0 || int_of_string n >= nn then None
                     else Some (int_of_string t, CAwait (nat_of_int (int_of_string n)))
                   | ["run"; t] -> Some (int_of_string t, CRun)
                   | ["qb"; t] -> Some (int_of_string t, CQBarrier)
                   | _ -> None in
                 match c with
                 | Some (t, c) when t >= 0 && t < k ->
-                  let fr = fg_call !fs t c in
+                  let flag n = let i = int_of_nat n in i < nn && rearm.(i) in
+                  let res = if c = CRun then gen_w_run_rearm (nat_of_int t) flag !s else gen_w_step (nat_of_int t) c !s in
+                  (* the nodes re-armed by this run(), in the order of their callbacks *)
+                  let rearmed = match res with
+                    | Ok (_, evs) when c = CRun ->
+                      List.filter_map (function WCb (n, _) when flag n -> Some n | _ -> None) evs
+                    | _ -> [] in
+                  let fr = List.fold_left (fun f c' -> match f with Some f -> fg_call f t c' | None -> None)
+                      (Some !fs) (c :: List.map (fun n -> CAwait n) rearmed) in
                   (match fr with Some f' -> fs := f' | None -> ());
-                  (match gen_w_step (nat_of_int t) c !s with
+                  (match res with
                    | Ok (s', evs) -> s := s';
+                     List.iter (fun n -> rearm.(int_of_nat n) <- false) rearmed;
+                     (match c, words l with
+                      | CAwait n, [_; _; _; "rearm"] -> rearm.(int_of_nat n) <- true
+                      | CAwait n, _ -> rearm.(int_of_nat n) <- false
+                      | _ -> ());
                      (match fr with
                       | Some f' when fg_agrees k nn s' f' -> ()
                       | Some f' when c = CQBarrier && f'.fstop = None && (f'.fth (nat_of_int t)).tpc <> PIdle -> ()
